@@ -219,8 +219,12 @@ impl HalfConnection {
         self.rtt_ms = rtt_ms;
         self.rto_ms = rto_ms;
 
-        // Forget old frame data
-        self.frame_queue.forget_frames(now_ms.saturating_sub(rtt_ms*4), self.send_rate_comp.rtt_ms());
+        // Forget old frame data. Frames must be remembered for as long as feedback for them is
+        // still expected, i.e. for one RTO (max(4*RTT, 2*s/X), see RFC 5348 section 4.3): at low
+        // send rates, or while the RTT estimate lags behind a path whose delay has grown,
+        // acknowledgements take longer than 4*RTT_est to arrive, and dropping the records earlier
+        // makes every acknowledgement unverifiable, so the RTT estimate could never adapt.
+        self.frame_queue.forget_frames(now_ms.saturating_sub(rto_ms.max(rtt_ms*4)), self.send_rate_comp.rtt_ms());
 
         // Fill flush allocation
         self.fill_flush_alloc(now);
